@@ -60,12 +60,14 @@ class StackRun(object):
         def fn(*args, **kwargs):
             n = calls[s] = calls.get(s, 0) + 1
             env.rec("call", s, n, desc(args), desc(sorted(kwargs.items())))
+            env.hit("call-enter")
             if sub.get("nest") and self.fns.nest_hook:
                 self.fns.nest_hook(None, "callable")
             if sub.get("dur"):
                 sim.sleep(sub["dur"])
             o = script[min(n - 1, len(script) - 1)]
             env.rec("call-end", s, n, o)
+            env.hit("call-exit")
             if o != "ok":
                 raise env.exc(("v", s, n), o)
             return ("v", s, n)
